@@ -29,7 +29,7 @@ PORT = 60000
 class Rig:
     def __init__(self, with_search: bool = False, share_tree: dict | None = None):
         from aioslsk.events import EventBus
-        from aioslsk.network.network import Network
+        from aioslsk.network.network import Network, PeerConnectMode
         from aioslsk.network.connection import ConnectionState
         from aioslsk.distributed import DistributedNetwork
         self.loop = vloop.new_loop(1000.0)
@@ -37,19 +37,21 @@ class Rig:
         self.tmp = Path(tempfile.mkdtemp(prefix='verif_c13_'))
         self.closed = False
         try:
-            self.settings = make_settings(username=ME, tmp=self.tmp, port=PORT, obfuscated_port=0)
+            self.settings = make_settings(username=ME, tmp=self.tmp, port=PORT, obfuscated_port=0, connect_mode=PeerConnectMode.FALLBACK)
             self.bus = EventBus()
             self.network = Network(self.settings, self.bus)
             # server connection on a fake endpoint whose drain can be held
             self.server = fakes.Endpoint(self.net, label='server')
             self.held = False
-            self.gate: asyncio.Future | None = None
+            self.waiters: list[asyncio.Future] = []    # one future per blocked drain, released in FIFO order
             self.blocked = 0
 
             async def gated_drain():
                 if self.held:
                     self.blocked += 1
-                    await self.gate
+                    f = self.loop.create_future()
+                    self.waiters.append(f)
+                    await f
                 await asyncio.sleep(0)
             self.server.writer.drain = gated_drain
             sc = self.network.server_connection
@@ -182,15 +184,14 @@ class Rig:
         self.settle()
 
     def hold(self):
-        if not self.held:
-            self.held = True
-            self.gate = self.loop.create_future()
+        self.held = True
 
     def release(self):
-        if self.held:
-            self.held = False
-            self.gate.set_result(None)
-            self.gate = None
+        self.held = False
+        ws, self.waiters = self.waiters, []
+        for f in ws:
+            if not f.done():
+                f.set_result(None)
         self.settle()
 
     def add_asker(self, name: str):
@@ -287,8 +288,9 @@ class Rig:
             return
         self.closed = True
         try:
-            if getattr(self, 'gate', None) is not None and not self.gate.done():
-                self.gate.cancel()
+            for f in getattr(self, 'waiters', []):
+                if not f.done():
+                    f.cancel()
         except Exception:
             pass
         self.net.uninstall()
